@@ -125,6 +125,23 @@ def run(res, tier, build_ok):
                 k = key_of(f, L)
                 if k is None or not isinstance(kw.get(a), int) or a in ("blocksize",) or kw[a] >= (1 << f["width"]):
                     continue
+                # decoding the built CDB returns the argument it was built from — zero included (an explicit 0 is a value)
+                for v0 in (kw[a], 0):
+                    kwz = dict(kw)
+                    kwz[a] = v0
+                    if "data" in kwz and isinstance(kwz.get("data"), (bytes, bytearray)) and a in ("tl",):
+                        continue
+                    try:
+                        cz = cls(op, **kwz)
+                    except Exception:
+                        continue
+                    dz = cls.unmarshall_cdb(cz.cdb)
+                    res.count("constructor-built CDB decoded back to its argument")
+                    if dz.get(k) != v0:
+                        res.violation("cls=%s built decode arg=%s" % (c["cls"], a),
+                                      "%s built with %s=%d: decoding the CDB it built gives %s=%s" % (c["cls"], a, v0, k, dz.get(k)),
+                                      {"class": c["cls"], "argument": a, "value": v0, "cdb": bytes(cz.cdb).hex(), "decoded": dz.get(k)})
+                        break
                 if a in c01.size_params(c) and kw[a] + 1 > 4096:
                     continue
                 kw2 = dict(kw)
